@@ -175,6 +175,29 @@ Fixpoint last_commit (tr : list event) : option binding :=
 (* the same for a chronological log *)
 Definition last_commit_chrono (l : list event) : option binding := last_commit (rev l).
 
+(* ---- the hook/commit log grammar ------------------------------------------------------------------
+   hclog l cur pend : the (newest-first) list l of hook and commit events can be produced by
+     - a raising hook call for b, only while b is not the recorded binding; records nothing
+     - a returning hook call for b, only while b is not the recorded binding and no other call awaits its commit
+     - the commit of b by the thread whose hook call for b has just returned; b becomes the recorded binding
+   cur = binding recorded after l, pend = the returned hook call whose commit is still to come. *)
+Inductive hclog : list event -> option binding -> option (nat * binding) -> Prop :=
+| hl_nil : hclog [] None None
+| hl_fail : forall t b l c, hclog l c None -> Some b <> c -> hclog (EHook t b false :: l) c None
+| hl_ok : forall t b l c, hclog l c None -> Some b <> c -> hclog (EHook t b true :: l) c (Some (t, b))
+| hl_commit : forall t b l c, hclog l c (Some (t, b)) -> hclog (ECommit t b :: l) (Some b) None.
+
+(* dispatch events: ctx.kind is the kind committed most recently, and there is one *)
+Fixpoint disp_ok (tr : list event) : Prop :=
+  match tr with
+  | [] => True
+  | e :: pre =>
+      match e with
+      | EDisp _ _ seen => seen <> None /\ seen = option_map fst (last_commit pre)
+      | _ => True
+      end /\ disp_ok pre
+  end.
+
 (* every thread is between two jobs and nobody is inside _notify_transport *)
 Definition quiescent (s : st) : Prop :=
   slock s = None /\ forall t, match tjobs (sthreads s t) with [] => True | j :: _ => tpc (sthreads s t) = start_pc j end.
@@ -187,9 +210,6 @@ Definition steps_to_hook (j : job) : nat := match jvia j with VHttp => 4 | VServ
 
 (* ---- correspondence entry point ---------------------------------------------------------------- *)
 Definition hook_of_list (l : list bool) (dflt : bool) : nat -> kind -> bool := fun n _ => nth n l dflt.
-Definition guard_of_code (c : N) : option kind -> bool :=
-  match c with 0%N => guard_is_none | _ => guard_not_http end.
-
 Definition kind_code (k : kind) : N := match k with KPipe => 1 | KHttp => 2 | KUnix => 3 | KTcp => 4 end.
 Definition okind_code (k : option kind) : N := match k with None => 0%N | Some k => kind_code k end.
 Definition binding_code (b : binding) : N := (2 * kind_code (fst b) + (if snd b then 1 else 0))%N.
@@ -233,13 +253,13 @@ Fixpoint run_labels (guard : option kind -> bool) (hookf : nat -> kind -> bool) 
   | t :: r => let '(ls, s') := run_labels guard hookf (step guard hookf s t) r in (label_of s t :: ls, s')
   end.
 
-(* input: (guard code, (hook outcomes, default outcome), threads as lists of (via code, dispatch count), schedule)
+(* input: ((hook outcomes, default outcome), threads as lists of (via code, dispatch count), schedule)
    output: (step labels, events in chronological order, (final kind code, final shm flag)) *)
-Definition run_case (x : N * (list bool * bool) * list (list (N * N)) * list N)
+Definition run_case (g : option kind -> bool) (x : (list bool * bool) * list (list (N * N)) * list N)
   : list N * list (list N) * (N * bool) :=
-  let '(g, (hl, hd), cfg, sched) := x in
+  let '((hl, hd), cfg, sched) := x in
   let cfg' := map (map (fun p : N * N => {| jvia := via_of_code (fst p); jn := N.to_nat (snd p) |})) cfg in
-  let '(ls, s) := run_labels (guard_of_code g) (hook_of_list hl hd) (init cfg') (map N.to_nat sched) in
+  let '(ls, s) := run_labels g (hook_of_list hl hd) (init cfg') (map N.to_nat sched) in
   (ls, map event_code (trace_of s), (okind_code (skind s), scaps s)).
 
 Definition out_eqb (a b : list N * list (list N) * (N * bool)) : bool :=
